@@ -288,10 +288,12 @@ def judge(case):
             out.append(('c18:exec:unabstractable-output', 'behaviour differs (output outside the mini-language)'))
         case.findings = out
         return out
-    if v['ex'] == 'reject':
+    undecided = v['bad'][0] not in ('',)
+    # "must reject" is demanded because laziness cannot be preserved; an accepted program that TLC proves
+    # equivalent on every input (nothing was pulled out after all) does not violate the property
+    if v['ex'] == 'reject' and (undecided or v['nd'] > 0 or v['bad'][1]):
         out.append(('c18:reject:accepted:%s:%s' % (cfgn, lazy_kinds(case.prog)),
                     'a construct whose lazily evaluated operand would be hoisted is transformed instead of rejected'))
-    undecided = v['bad'][0] not in ('',)
     if v['bad'][1] == 'unbound-temporary':
         out.append(('c18:temps:unbound-temporary', 'a generated temporary is read before it is assigned'))
     elif v['bad'][1] and not undecided:
